@@ -254,8 +254,8 @@ PROPS = {
     },
     "C18": {
         "ext_in_quick": True,
-        "lean_targets": ["Pep508.Theorems.C18", "Pep508.Theorems.C18b", "Pep508.Theorems.NonVacuityC"],
-        "theorems": ["Pep508.C18.scan_is_rule", "Pep508.C18.rule_url", "Pep508.C18.rule_ambiguous", "Pep508.C18.parse_url_is_rule", "Pep508.parseUrl_total",
+        "lean_targets": ["Pep508.Theorems.Tables", "Pep508.Theorems.C18", "Pep508.Theorems.C18b", "Pep508.Theorems.NonVacuityC"],
+        "theorems": ["Pep508.Tables.scheme_tables", "Pep508.Tables.schemes_are_schemes", "Pep508.C18.scan_is_rule", "Pep508.C18.rule_url", "Pep508.C18.rule_ambiguous", "Pep508.C18.parse_url_is_rule", "Pep508.parseUrl_total",
                      "Pep508.C18.expand_meets_spec", "Pep508.C18.spec_functional", "Pep508.C18.expand_iff_spec", "Pep508.C18.reference_anywhere",
                      "Pep508.C18.set_variable", "Pep508.C18.unset_variable", "Pep508.C18.project_root_unset", "Pep508.C18.lookupVar_none_iff",
                      "Pep508.C18.no_rescan", "Pep508.C18.dollar_without_brace", "Pep508.C18.unclosed_reference", "Pep508.C18.empty_name",
